@@ -3,6 +3,7 @@
 package c16
 
 import (
+	"encoding/hex"
 	"encoding/json"
 	"fmt"
 	"sort"
@@ -20,12 +21,21 @@ import (
 	"verif/prof"
 )
 
+// anyCase is an arbitrary input with a chunking (sub-check options-on-any-input).
+type anyCase struct {
+	Data  string       `json:"data_hex"`
+	Chunk gen.Chunking `json:"chunking"`
+}
+
 type optCase struct {
 	FileType int              `json:"file_type"`
 	Stream   *fitmodel.Stream `json:"stream"`
 	Chunk    gen.Chunking     `json:"chunking"`
 	BadCRC   bool             `json:"bad_crc"`
-	Text     string           `json:"text"`
+	// BadHdrCRC: the stream gets a 14-byte header whose stored CRC is wrong
+	// (non-zero), the file CRC being consistent with the bytes as they are
+	BadHdrCRC bool   `json:"bad_header_crc,omitempty"`
+	Text      string `json:"text"`
 }
 
 // captureLogger records whether anything was logged.
@@ -100,10 +110,23 @@ func tallies(s *fitmodel.Stream, limit int) (um map[uint16]int, uf map[[2]uint16
 }
 
 func check(rec *hx.Recorder, c optCase, labels map[string]int) (string, bool) {
+	if c.BadHdrCRC {
+		cs := *c.Stream
+		cs.HeaderSize = 14
+		c.Stream = &cs
+	}
 	lay := c.Stream.Layout()
 	data := append([]byte(nil), lay.Bytes...)
 	if c.BadCRC {
 		data[len(data)-1] ^= 0x40
+	}
+	if c.BadHdrCRC {
+		data[12] ^= 0x21
+		if data[12] == 0 && data[13] == 0 {
+			data[13] = 1
+		}
+		fc := fitmodel.CRC(data[:len(data)-2])
+		data[len(data)-2], data[len(data)-1] = byte(fc), byte(fc>>8)
 	}
 	ip := fitmodel.Interpret(c.Stream, prof.Table())
 	// how many records complete before the failure (if any)
@@ -126,6 +149,10 @@ func check(rec *hx.Recorder, c optCase, labels map[string]int) (string, bool) {
 	case c.BadCRC:
 		failing = true
 		labels["fails: bad crc"]++
+	case c.BadHdrCRC:
+		failing = true
+		completed = 0
+		labels["fails: bad header crc, file crc consistent"]++
 	}
 
 	var results [8]runResult
@@ -310,6 +337,21 @@ func between2(what string, got, lo, hi map[[2]uint16]int) string {
 
 func TestC16(t *testing.T) {
 	hx.Main(t, "C16", func(rec *hx.Recorder) {
+		if rp, ok := hx.LoadReplay(); ok && rp.Sub == "options-on-any-input" {
+			var c anyCase
+			json.Unmarshal(rp.Case, &c)
+			data, _ := hex.DecodeString(strings.ReplaceAll(c.Data, " ", ""))
+			rec.Eval("replay", 8)
+			base, _ := runWith(data, c.Chunk, 0)
+			for set := 1; set < 8; set++ {
+				r, p := runWith(data, c.Chunk, set)
+				if p != nil || r.nilFile != base.nilFile || r.digest != base.digest || r.errText != base.errText || r.consumed != base.consumed {
+					rec.Fail(rp.Sub, "", fmt.Sprintf("option set %03b changes the outcome (panic=%v err %q vs %q)", set, p, r.errText, base.errText), c)
+					return
+				}
+			}
+			return
+		}
 		if rp, ok := hx.LoadReplay(); ok {
 			var c optCase
 			if err := json.Unmarshal(rp.Case, &c); err != nil {
@@ -344,6 +386,41 @@ func TestC16(t *testing.T) {
 			}
 		}
 
+		// any input at all, well-formed or not (structural and byte-level
+		// mutants of generated streams): the options change neither the
+		// messages, nor the error, nor the bytes consumed. No model is
+		// needed for that: the eight runs are compared with each other.
+		hx.RapidCheck(t, rec, "options-on-any-input", func(rt *rapid.T, fail func(string, string, any)) {
+			d := gen.D{T: rt}
+			o := gen.DefaultStreamOpts()
+			o.MaxRecs = 12
+			s, _ := gen.GenStream(d, o)
+			data := gen.MutateBytes(d, gen.MutateSpec(d, s).Bytes())
+			ch := gen.DrawChunking(d)
+			var results [8]runResult
+			for set := 0; set < 8; set++ {
+				r, p := runWith(data, ch, set)
+				if p != nil {
+					// a panic is C01's business; here only agreement counts,
+					// and a panic under one option set only is disagreement
+					r.errText = fmt.Sprintf("PANIC: %v", p)
+				}
+				results[set] = r
+			}
+			rec.Eval("options-on-any-input", 8)
+			if results[0].errText != "" {
+				rec.Class("any-input: Decode fails", 1)
+				rec.NonTrivial(hx.FPBytes(data))
+			}
+			for set := 1; set < 8; set++ {
+				a, b := results[0], results[set]
+				if a.nilFile != b.nilFile || a.digest != b.digest || a.errText != b.errText || a.consumed != b.consumed {
+					fail("", fmt.Sprintf("option set %03b (logger|unknownFields|unknownMessages) changes the outcome on this input:\nwithout options: err=%q consumed=%d file=%v\nwith:            err=%q consumed=%d file=%v\ninput: %s",
+						set, a.errText, a.consumed, !a.nilFile, b.errText, b.consumed, !b.nilFile, hx.Hex(data)), anyCase{Data: hex.EncodeToString(data), Chunk: ch})
+				}
+			}
+		})
+
 		hx.RapidCheck(t, rec, "options", func(rt *rapid.T, fail func(string, string, any)) {
 			d := gen.D{T: rt}
 			o := gen.DefaultStreamOpts()
@@ -375,6 +452,8 @@ func TestC16(t *testing.T) {
 				c.Chunk.CutAt = d.Int(int(s.HeaderSize), len(s.Bytes())-1, "cut")
 			case 2:
 				c.BadCRC = true
+			case 3:
+				c.BadHdrCRC = true
 			}
 			c.Text = s.String()
 			labels := map[string]int{}
